@@ -48,6 +48,12 @@ func c07Opts(opt string) []gojq.CompilerOption {
 				n, _ := xs[0].(int)
 				return &countIter{max: n}
 			}),
+			// the usual ways for a Go function to fail: an iterator over one error, an error among values, a plain error
+			gojq.WithIterFunction("iterr", 0, 0, func(any, []any) gojq.Iter { return gojq.NewIter[any](errors.New("iterr failed")) }),
+			gojq.WithIterFunction("iterr2", 0, 0, func(any, []any) gojq.Iter { return gojq.NewIter[any](1, errors.New("iterr2 failed"), 3) }),
+			gojq.WithIterFunction("iternone", 0, 0, func(any, []any) gojq.Iter { return gojq.NewIter[any]() }),
+			gojq.WithIterFunction("iterone", 0, 0, func(v any, _ []any) gojq.Iter { return gojq.NewIter(v) }),
+			gojq.WithFunction("plainerr", 0, 0, func(any, []any) any { return errors.New("plainerr failed") }),
 			gojq.WithFunction("twice", 0, 0, func(v any, _ []any) any {
 				if n, ok := v.(int); ok {
 					return n * 2
@@ -558,6 +564,12 @@ func init() {
 						opt = "query"
 					}
 					kC07.Do(c, c07Case{Src: strings.ReplaceAll(cx, "%E", e), Input: run.TV{V: in}, Opt: opt})
+				}
+			}
+			// ... and the errors of registered Go functions
+			for _, e := range []string{"iterr", "iterr2", "plainerr", "iternone | error", "iterone | error", "(iterone, iterr)", "iterone | iterr", "\"x\" | twice", "upto(2) | error", "[iterr2]", "iterr // 1", "try iterr catch error", "iterr2 | select(. > 1)", "first(iterr2, iterr)"} {
+				for ci, cx := range c07ErrCtxs {
+					kC07.Do(c, c07Case{Src: strings.ReplaceAll(cx, "%E", e), Input: run.TV{V: inputs[ci%len(inputs)]}, Opt: "iterfn"})
 				}
 			}
 		},
